@@ -1,14 +1,15 @@
 \* IDEAL lock protocol, all scenarios of 2 and 3 requests over the full request pools plus hand-picked scenarios
-\* of 4 requests.
+\* of 4 requests and scenarios with a play AND a walk.
 SPECIFICATION Spec
 CONSTANTS
   KF_SharedLockRefCountRace = FALSE
   Sizes = {2, 3}
   KvPool <- KvPoolFull
   TokPool <- TokPoolFull
-  Extra <- FourProc
+  Extra <- FourProcTwoExcl
   GFirst = TRUE
   SelDet = FALSE
+  RecSteps = TRUE
   LogOn = TRUE
 VIEW View
 INVARIANT TypeOK
@@ -18,4 +19,5 @@ INVARIANT SelectorsDisjoint
 INVARIANT SelHeld
 INVARIANT Serialisable
 INVARIANT Quiescent
+INVARIANT TableMatchesHeld
 CHECK_DEADLOCK TRUE
